@@ -12,7 +12,8 @@ TCP_COMMON = ["tcp/common_test.go"]
 MAIN_COMMON = ["main/common_test.go"]
 SCHED = ["vsched", "vsync", "vatomic"]
 ROUTE_RW = [
-    {"files": ["route/picker.go", "route/glob_cache.go", "route/target.go"], "opts": ["-imports", "-stmt"]},
+    {"files": ["route/picker.go", "route/glob_cache.go", "route/target.go", "route/access_rules.go", "route/auth.go", "route/matcher.go", "route/routes.go"], "opts": ["-imports", "-stmt"]},
+    {"files": ["route/route.go", "route/parse_new.go", "route/route_def.go"], "opts": ["-imports"]},
     {"files": ["route/table.go"], "opts": ["-imports", "-stmt", "-sortrange=t"]},
 ]
 def route_sched(name, run, shards=None, **kw):
